@@ -30,7 +30,7 @@ SCENARIOS = [
     ("open_run,custom", "stop", {}),
     ("open_run,custom", "halt", {}),
     ("open_run,custom,checkpoint", "pause", {}),
-    ("open_run,custom,clear_checkpoint", "pause", {}),
+    ("open_run,custom,clear_checkpoint", "pause", {} if THOROUGH else {"max_requests": 2}),
     ("open_run,custom,clear_checkpoint", "suspend", {}),
     ("open_run,custom_async", "abort", {}),
     ("open_run,custom,checkpoint", "pause,abort", {"max_requests": 2}),
